@@ -88,3 +88,132 @@ def sched_after(ctx, R, prog, F, inst, source_blocks, sink_names=("RecomputeHeap
     if ok:
         ctx.ok(R, inst)
     return ok
+
+
+def changed_at_stamp_unconditional(ctx, prog, R):
+    """maybe_change_value_manual(did_change = true) records changed_at := stabilisation_num on EVERY path: the
+    stamp is what `is_stale_with_respect_to_a_child` compares when a dependant becomes necessary again later, so
+    it must not depend on whether the node has parents or handlers right now."""
+    from . import q
+    from .cfg import DefUse
+    from .effects import writes_of
+    from .expr import expr, show
+    M = ctx.need_fn(R, q.NODE + "maybe_change_value_manual")
+    if M is None:
+        return
+    du = DefUse(M)
+    c = M.cfg()
+    ws = [a for a in writes_of(prog, "incremental::node::Node.changed_at") if a.fn.path == M.path]
+    if not ws:
+        ctx.missing(R, "changed_at store in maybe_change_value_manual")
+        return
+    for a in ws:
+        extra = []
+        gated = False
+        for s_, can in c.controlling_switches(a.bb):
+            os_ = q.switch_operand_origins(M, s_, du)
+            if any(o.kind == "arg" and o.what == 3 for o in os_):
+                gated = True
+                continue
+            extra.append(show(expr(M, M.blocks[s_]["term"]["on"], du))[:80])
+        ctx.site(R, M, "bb%d changed_at store controlled by did_change%s" % (a.bb, (" and " + "; ".join(extra)) if extra else ""))
+        if gated and not extra:
+            ctx.ok(R, "stamp-unconditional")
+        else:
+            ctx.fail(R, "stamp-unconditional", "the changed_at stamp of a changed node also depends on %s: a node that "
+                     "changes while it has no parents/handlers keeps an old stamp, and a dependant linked later is "
+                     "judged up to date (lost update)" % ("; ".join(extra) or "something other than did_change"),
+                     fn=M, span=a.span)
+
+
+EXPERT_FLAG_WRITERS = {
+    # field -> {(root function suffix, value)}: the only places a flag may change, with the value stored
+    "force_stale": {("kind::expert::ExpertNode::make_stale", "1"), ("kind::expert::ExpertNode::add_child_edge", "1"),
+                    ("kind::expert::ExpertNode::pop_child_edge", "1"),
+                    ("<incremental::node::Node as incremental::node::ErasedNode>::expert_remove_dependency", "1"),
+                    ("kind::expert::ExpertNode::before_main_computation", "0")},
+    "will_fire_all_callbacks": {("kind::expert::ExpertNode::before_main_computation", "replace"),
+                                ("kind::expert::ExpertNode::observability_change", "1")},
+    "num_invalid_children": {("kind::expert::ExpertNode::incr_invalid_children", "increment"),
+                             ("kind::expert::ExpertNode::decr_invalid_children", "decrement"),
+                             ("kind::expert::ExpertNode::observability_change", "0")},
+}
+
+
+def expert_flag_writers(ctx, prog, R, fields=None):
+    """Who may write the expert node's bookkeeping flags, and which value. `force_stale = true` anywhere else
+    (e.g. when the node becomes unobservable) makes every per-key node recompute although nothing changed;
+    a missing reset of num_invalid_children makes a healthy node invalid."""
+    from .cfg import DefUse
+    from .effects import writes_of
+    from .expr import expr, show
+    from .facts import strip_generics
+    n = 0
+    for field, allowed in sorted(EXPERT_FLAG_WRITERS.items()):
+        if fields and field not in fields:
+            continue
+        seen = set()
+        for a in writes_of(prog, "incremental::kind::expert::ExpertNode." + field):
+            n += 1
+            v = show(expr(a.fn, a.site.args[1], DefUse(a.fn))) if a.kind == "set" and len(a.site.args) > 1 else a.kind
+            root = strip_generics(a.fn.root)
+            ctx.site(R, a.fn, "bb%d %s := %s" % (a.bb, field, v))
+            hit = [k for k in allowed if root.endswith(k[0]) and k[1] == v]
+            inst = "flag:%s:%s=%s" % (field, a.fn.short, v)
+            if hit:
+                seen.add(hit[0])
+                ctx.ok(R, inst)
+            else:
+                ctx.fail(R, inst, "ExpertNode.%s is set to %s in %s, which is not one of the audited writers: the node "
+                         "is recomputed (or keeps/loses its invalid-children count) at a moment the expert protocol does "
+                         "not prescribe" % (field, v, a.fn.short), fn=a.fn, span=a.span)
+        for k in sorted(allowed - seen):
+            ctx.fail(R, "flag:%s:missing:%s=%s" % (field, k[0].rsplit("::", 1)[-1], k[1]), "the audited store %s := %s in %s "
+                     "is gone" % (field, k[1], k[0]), kind="anchor")
+    ctx.floor(R, n, 5 if fields else 10)
+
+
+def every_parent_notified(ctx, prog, R):
+    """maybe_change_value_manual delivers child_changed to EVERY live parent of a changed node (when asked to):
+    whether the parent is already queued only decides the heap insertion. Expert parents fill their result from
+    that notification (per-edge on_change)."""
+    from . import q
+    from .cfg import DefUse
+    from .loops import elem_loops, uncovered_iteration
+    from .expr import expr, mentions
+    M = ctx.need_fn(R, q.NODE + "maybe_change_value_manual")
+    if M is None:
+        return
+    du = DefUse(M)
+    c = M.cfg()
+    sinks = {t.bb for t in q.calls_in(M, "ErasedNode>::child_changed", "ErasedNode::child_changed")}
+    if len(sinks) < 2:
+        ctx.missing(R, "child_changed calls in maybe_change_value_manual (loop + first parent)")
+        return
+    # edges taken when run_child_changed (arg 4) is false are excused
+    ex = set()
+    for b in M.blocks:
+        t = b["term"]
+        if t["k"] == "switch":
+            os_ = q.switch_operand_origins(M, b["id"], du)
+            if os_ and all(o.kind == "arg" and o.what == 4 for o in os_ if o.kind != "via"):
+                for x in c.succ[b["id"]]:
+                    if c.edge_values(b["id"], x) == [0]:
+                        ex.add((b["id"], x))
+    loops = [L for L in elem_loops(M, du)
+             if mentions(expr(M, L.advance_call.args[0], du), lambda x: x[0] == "field" and str(x[2][-1]).endswith("parents"))]
+    ctx.site(R, M, "parent loops %s, child_changed blocks %s" % ([L.header for L in loops], sorted(sinks)))
+    if not loops:
+        ctx.missing(R, "loop over parents in maybe_change_value_manual")
+        return
+    bad = None
+    for L in loops:
+        p = uncovered_iteration(M, L, sinks, {"Weak::upgrade": 0}, du, extra_avoid_edges=ex)
+        if p is not None:
+            bad = p
+    if bad is not None:
+        ctx.fail(R, "notify-every-parent", "an iteration over the parents of a changed node can skip child_changed for a "
+                 "live parent (for example because the parent is already in the recompute heap): an expert parent misses "
+                 "the per-edge callback and keeps the old value for that edge", fn=M, path=q.fmt_path(M, bad))
+    else:
+        ctx.ok(R, "notify-every-parent")
